@@ -67,6 +67,13 @@
     bytes of a loaded manifest) decides nothing (C19_create_digest_ignores_stored_buffers,
     C19_create_digest_stored_exact, C19_seq_pipeline_after_digest_edit).
 
+    Round 6 (seeded change C19-m11): section 7 covers images on which more than one layout
+    probe of CalcImageOffset answers (a full coreboot image: flash descriptor AND flash map,
+    COREBOOT area ending below the end of the BIOS region); the order of the probes is part
+    of the model ([probes], [probe_layout]) and the theorems state that the descriptor's BIOS
+    region decides whenever there is a descriptor (C19_offset_probes,
+    C19_offset_descriptor_decides_alone, C19_validator_accepts_descriptor_with_fmap, ...).
+
     No clause is partial or refuted any more: the three defects this property had found
     (KNOWN_FINDINGS.json, "fixed") are repaired in the code and the theorems that excluded or
     refuted them are now the full statements:
@@ -651,6 +658,115 @@ Proof. exact stitch_twice_frame_region. Qed.
 Print Assumptions C19_stitch_twice_only_entry_regions.
 
 (* ================================================================== *)
+(** ** 7. images on which more than one layout probe answers (descriptor AND flash map)
+
+    A full coreboot image has a flash descriptor and a flash map, and parses as a bare BIOS
+    region besides; the COREBOOT area need not end where the BIOS region ends (a BOOTBLOCK
+    area above the CBFS).  [probes] = the answers of all three probes of CalcImageOffset,
+    [probe_layout p] = the one CalcImageOffset follows (the ORDER of the probes is part of
+    the model), [calc_image_offset p n addr = calc_offset (probe_layout p) n addr];
+    [mapped_region p n re]: the mapped region of the property text ends at [re]: the BIOS
+    region of the descriptor whenever there is a descriptor, the COREBOOT area for an image
+    without descriptor, the whole image when there is neither. *)
+
+(** every combination of answers: the address translates as the property text says *)
+Theorem C19_offset_probes : forall p n region_end addr,
+  mapped_region p n region_end -> BASE - region_end <= addr < BASE ->
+  calc_image_offset p n addr = Ok (spec_offset region_end addr).
+Proof. exact calc_image_offset_mapped. Qed.
+Print Assumptions C19_offset_probes.
+
+(** with a descriptor neither the flash map nor the BIOS-region parser has a say (unconditional) *)
+Theorem C19_offset_descriptor_decides_alone : forall r fm fm' b b' n addr,
+  calc_image_offset (mkPR (Some r) fm b) n addr = calc_image_offset (mkPR (Some r) fm' b') n addr.
+Proof. exact calc_image_offset_descriptor_only. Qed.
+Print Assumptions C19_offset_descriptor_decides_alone.
+
+(** descriptor and ANY flash map: the end of the BIOS region is at 4 GiB *)
+Theorem C19_offset_descriptor_first : forall off size fm b n addr,
+  0 <= off -> 0 <= size -> off + size < W32 -> BASE - (off + size) <= addr < BASE ->
+  calc_image_offset (mkPR (Some (off, size)) fm b) n addr = Ok (spec_offset (off + size) addr).
+Proof. exact calc_image_offset_descriptor_first. Qed.
+Print Assumptions C19_offset_descriptor_first.
+
+(** no descriptor: the COREBOOT area decides, whether or not the image parses as a BIOS region *)
+Theorem C19_offset_fmap_without_descriptor : forall off size b n addr,
+  0 <= off -> 0 <= size -> off + size < W32 -> BASE - (off + size) <= addr < BASE ->
+  calc_image_offset (mkPR None (Some (off, size)) b) n addr = Ok (spec_offset (off + size) addr).
+Proof. exact calc_image_offset_fmap_second. Qed.
+Print Assumptions C19_offset_fmap_without_descriptor.
+
+(** closed instance: 1 MiB, BIOS region [0x1000, 1 MiB), COREBOOT area [0x10000, 0xE0000) under
+    a 128 KiB BOOTBLOCK area: 4GiB-16 is offset 0xFFFF0 (with the descriptor), 0xDFFF0 (the same
+    flash map without descriptor) *)
+Theorem C19_offset_two_probes_witness :
+  calc_image_offset (mkPR (Some (4096, 1044480)) (Some (65536, 851968)) true) 1048576 4294967280 = Ok 1048560 /\
+  calc_image_offset (mkPR None (Some (65536, 851968)) true) 1048576 4294967280 = Ok 917488.
+Proof. exact calc_image_offset_two_probes_witness. Qed.
+Print Assumptions C19_offset_two_probes_witness.
+
+(** the digest clause for every combination of probe answers *)
+Theorem C19_digest_exact_probes : forall (H : Z -> list Z -> list Z) ver alg p region_end img segs,
+  mapped_region p (zlen img) region_end -> region_end <= zlen img ->
+  alg_supported ver alg = true ->
+  Forall (fun s => included s = true -> seg_in_region region_end img s) segs ->
+  ibbs_digest H ver alg (probe_layout p) img segs =
+  Ok (H alg (concat (map (fun s => slice img (spec_offset region_end (sg_base s)) (sg_size s))
+                         (filter included segs)))).
+Proof. exact ibbs_digest_probes. Qed.
+Print Assumptions C19_digest_exact_probes.
+
+(** descriptor whose BIOS region ends at the end of the image and ANY flash map beside it
+    (COREBOOT area ending anywhere): the independent validation accepts *)
+Theorem C19_validator_accepts_descriptor_with_fmap : forall off size fm b img segs p,
+  0 <= off -> 0 <= size -> off + size = zlen img -> zlen img < W32 ->
+  Forall (fun s => included s = true ->
+                   BASE - zlen img <= sg_base s < BASE /\ seg_inside (spec_offset (zlen img)) img s) segs ->
+  digest_preimage (probe_layout (mkPR (Some (off, size)) fm b)) img segs = Ok p ->
+  ibbs_match (probe_layout (mkPR (Some (off, size)) fm b)) img segs = Ok true.
+Proof. exact ibbs_match_descriptor_with_fmap. Qed.
+Print Assumptions C19_validator_accepts_descriptor_with_fmap.
+
+(** ... stitching changes only the targeted entries' regions *)
+Theorem C19_stitch_only_entry_regions_descriptor_with_fmap : forall off size fm b img fit acm bpm km i,
+  0 <= off -> 0 <= size -> off + size = zlen img -> zlen img < W32 ->
+  entries_in_window (zlen img) fit -> 0 <= i ->
+  (forall e, In e fit -> ~ in_entry_region (zlen img) e acm bpm km i) ->
+  zn (fst (stitch (probe_layout (mkPR (Some (off, size)) fm b)) img (Some fit) acm bpm km)) i = zn img i.
+Proof. exact stitch_frame_descriptor_with_fmap. Qed.
+Print Assumptions C19_stitch_only_entry_regions_descriptor_with_fmap.
+
+(** ... and the generation chain on an object with any history yields that image's segments,
+    that image's hash for every listed algorithm, and is accepted *)
+Theorem C19_seq_pipeline_descriptor_with_fmap : forall ver st flags fit off size fm b img,
+  0 < se_count st ->
+  0 <= off -> 0 <= size -> off + size = zlen img -> zlen img < W32 ->
+  Forall (fun e => is_startup e = true -> fit_entry_wf e) fit ->
+  Forall (fun s => included s = true -> seg_in_region (zlen img) img s)
+         (map (fun e => mkSeg (fe_addr e) (16 * fe_size e) flags) (filter is_startup fit)) ->
+  Forall (fun ad => alg_supported ver (fst ad) = true) (bg_digs st) ->
+  bg_digs st <> [] ->
+  let l := probe_layout (mkPR (Some (off, size)) fm b) in
+  let segs := map (fun e => mkSeg (fe_addr e) (16 * fe_size e) flags) (filter is_startup fit) in
+  let p := concat (map (fun s => slice img (spec_offset (zlen img) (sg_base s)) (sg_size s))
+                       (filter included segs)) in
+  run ver st [OCreateSegs 0 flags (Some fit); OCreateDigest l img; OMatch img] =
+  (mkBG (set_nth 0 segs (bg_segs st)) (map (fun ad => (fst ad, Some (fst ad, p))) (bg_digs st)),
+   [RUnit (Ok tt); RUnit (Ok tt); RBool (Ok true)]).
+Proof. exact run_pipeline_descriptor_with_fmap. Qed.
+Print Assumptions C19_seq_pipeline_descriptor_with_fmap.
+
+(** closed instance: 64 bytes, BIOS region [16,64), COREBOOT area [24,48): the segment
+    (4GiB-48, 16) is bytes [16,32) and is accepted; the same flash map without descriptor
+    maps the end of the COREBOOT area to 4 GiB (bytes [0,16)) *)
+Theorem C19_digest_two_probes_witness :
+  digest_preimage (probe_layout (mkPR (Some (16, 48)) (Some (24, 24)) true)) (seqZ 0 64) [mkSeg (4294967296 - 48) 16 0] = Ok (seqZ 16 16) /\
+  ibbs_match (probe_layout (mkPR (Some (16, 48)) (Some (24, 24)) true)) (seqZ 0 64) [mkSeg (4294967296 - 48) 16 0] = Ok true /\
+  digest_preimage (probe_layout (mkPR None (Some (24, 24)) true)) (seqZ 0 64) [mkSeg (4294967296 - 48) 16 0] = Ok (seqZ 0 16).
+Proof. exact digest_two_probes_witness. Qed.
+Print Assumptions C19_digest_two_probes_witness.
+
+(* ================================================================== *)
 (** ** the hypotheses are satisfiable *)
 
 (** a 64-byte "flash image" with a descriptor-style layout: BIOS region [16, 64) *)
@@ -748,3 +864,11 @@ Example ex_digest_edit_hyps :
   Forall (fun e => alg_supported 2 (edit_alg e) = true) [EKeep 1 4; ENew 18 None; EKeep 0 11] /\
   map fst [(12, Some [1; 2; 3]); (11, @None (list Z)); (18, None)] = map fst [(12, @None (list Z)); (11, Some [9]); (18, None)].
 Proof. split; [repeat constructor|reflexivity]. Qed.
+
+(** the three shapes of [mapped_region]: descriptor with a flash map whose COREBOOT area ends
+    16 bytes below the end of the BIOS region; the flash map alone; neither *)
+Example ex_mapped_region :
+  mapped_region (mkPR (Some (16, 48)) (Some (24, 24)) true) 64 64 /\
+  mapped_region (mkPR None (Some (24, 24)) true) 64 48 /\
+  mapped_region (mkPR None None true) 64 64.
+Proof. unfold mapped_region, region_ends, W32. cbn. lia. Qed.
